@@ -234,6 +234,12 @@ def l_comp_tuple_filter(a, b, c):
 def l_len_comp_filter(a, b, c):
     return len([x for x in (a, b, c) if x])
 
+def l_comp_list_filter(xs, t):
+    return [x for x in xs if x.startswith(t)]
+
+def l_comp_list_filter_len(xs):
+    return len([x for x in xs if x != ""])
+
 def l_display_index(a, b):
     t = (a, b)
     return t[1]
